@@ -6,6 +6,7 @@ package c06
 // rest = stranded). No gate is installed, so the commit window is declared open for the whole run.
 
 import (
+	"fmt"
 	"sync"
 	"time"
 
@@ -59,6 +60,99 @@ func freeRun(b *tv.Batch, run, pairs int) bool {
 		}
 		for j := 0; j < (run+i)%40; j++ { // a little jitter around the loop's exit
 		}
+	}
+	ev("quiescent", tv.M{"now": 0})
+	if ok {
+		closed := make(chan struct{})
+		go func() { proc.Close(); close(closed) }()
+		select {
+		case <-closed:
+		case <-time.After(2 * time.Second):
+		}
+	}
+	return ok
+}
+
+// freeStorm: three producers enqueue due items as fast as they can while a fourth goroutine enqueues far-future items and
+// a fifth dequeues them - every critical section of the Processor is contended with real parallelism. Every call must
+// return (watchdog -> `hung`, an event no rule of the trace spec consumes), every due item must have been executed at rest.
+func freeStorm(b *tv.Batch, run int) bool {
+	var mu sync.Mutex
+	ev := func(name string, m tv.M) {
+		mu.Lock()
+		defer mu.Unlock()
+		b.Ev(name, m)
+	}
+	clk := clocktesting.NewFakeClock(base)
+	b.Start(tv.M{"family": "free-running storm", "run": run})
+	ev("w_open", tv.M{})
+	var executed sync.WaitGroup
+	proc := queue.NewProcessor[string, *item](func(it *item) {
+		ev("cbstart", tv.M{"id": it.id})
+		ev("cbend", tv.M{"id": it.id})
+		executed.Done()
+	}).WithClock(clk)
+	const P, N, F = 2, 5, 5
+	executed.Add(P * N)
+	var idmu sync.Mutex
+	nextID, nextDeq := 0, 0
+	newID := func() int { idmu.Lock(); defer idmu.Unlock(); nextID++; return nextID }
+	var wg sync.WaitGroup
+	start := make(chan struct{})
+	for g := 0; g < P; g++ {
+		wg.Add(1)
+		go func(g int) {
+			defer wg.Done()
+			<-start
+			for i := 0; i < N; i++ {
+				it := &item{id: newID(), key: fmt.Sprintf("p%d-%d", g, i), at: clk.Now()}
+				ev("enq_call", tv.M{"id": it.id, "key": it.key, "at": 0})
+				proc.Enqueue(it)
+				ev("enq_ret", tv.M{"id": it.id})
+			}
+		}(g)
+	}
+	wg.Add(2)
+	go func() {
+		defer wg.Done()
+		<-start
+		for i := 0; i < F; i++ {
+			it := &item{id: newID(), key: fmt.Sprintf("f%d", i), at: clk.Now().Add(time.Hour)}
+			ev("enq_call", tv.M{"id": it.id, "key": it.key, "at": 36_000_000})
+			proc.Enqueue(it)
+			ev("enq_ret", tv.M{"id": it.id})
+		}
+	}()
+	go func() {
+		defer wg.Done()
+		<-start
+		for i := 0; i < F; i++ {
+			idmu.Lock()
+			nextDeq++
+			d := nextDeq
+			idmu.Unlock()
+			key := fmt.Sprintf("f%d", i)
+			ev("deq_call", tv.M{"d": d, "key": key})
+			proc.Dequeue(key)
+			ev("deq_ret", tv.M{"d": d})
+		}
+	}()
+	close(start)
+	done := make(chan struct{})
+	go func() { wg.Wait(); close(done) }()
+	select {
+	case <-done:
+	case <-time.After(3 * time.Second):
+		ev("hung", tv.M{"what": "an Enqueue or Dequeue call never returned"})
+		return false
+	}
+	ran := make(chan struct{})
+	go func() { executed.Wait(); close(ran) }()
+	ok := true
+	select {
+	case <-ran:
+	case <-time.After(time.Second):
+		ok = false // stranded: the quiescent record below is rejected by the contract
 	}
 	ev("quiescent", tv.M{"now": 0})
 	if ok {
